@@ -38,6 +38,18 @@ CHECKS = {
                 text="Grid of issue offsets within the rotation x use delays around 10 and 15 minutes (nanosecond-exact) x users (same address, other port, v4-mapped) x {announce_peer, immutable put, mutable put} x token source {get_peers, get}; 186 token mutations (all single-bit flips, truncations, extensions, empty, absent, second server's token, token issued to another IP); foreign IPs with the exact token. Recording peer store, BEP 44 store and announce callback observe effects. Accept <= 10 min and reject > 15 min are demanded, 10-15 min is free, reply <=> effect.",
                 note="the server secret is random per instance; oracles never depend on token bytes, only on who was issued what and when",
                 ref="DESIGN.md 5/C10"),
+    "C07": dict(level="model_checking", technique=E1 + "; letters are built from the transaction ids observed on the fake socket",
+                text="6 scenarios of 1-3 concurrently outstanding queries (same destination twice, different destinations, same IP with two ports, ping+get+ping to one address, IPv4+IPv6); BFS over all datagram sequences (depth 3 quick / 4 thorough) whose letters are derived from the observed transaction ids: own reply, own error, unknown y, adjacent / extended / prefixed / truncated / empty t, right t from another port or another IP, another pending query's t. Every reply carries a unique marker. Reference: a datagram completes exactly the pending query with this (IP, port, t), with its payload, once; every other datagram leaves all pending calls and the outstanding-transaction count unchanged; simultaneously outstanding t are pairwise distinct; all sequences end with the remaining queries timing out and zero outstanding transactions.",
+                note="transaction ids are a process-global counter: the harness reads them off the wire and never predicts them",
+                ref="DESIGN.md 5/C07"),
+    "C09": dict(level="model_checking", technique=E1 + "; tables are built through real traffic, oracle = set-level reference selection on the hook snapshot",
+                text="Routing tables built through real traffic from recipes (per bucket in {0,1,2,5,159} one of 10 contents mixing good v4/v6, questionable, good-by-recent-query, never-responded and failed-ping entries; all assignments with at most 2 (quick) / 3 (thorough) non-empty buckets plus 6 large hand-shaped tables incl. >8 good in one bucket) x targets {own ID, an ID in buckets 0,1,2,3,5,158,159} x {find_node(target), get_peers(info_hash), get(target)} each with a decoy ID in the other field x want in {absent, n4, n6, both, xx} x source family. nodes/nodes6 are parsed from raw bytes and compared with a reference selection: family/width, presence per BEP 32, at most 8 distinct, each listed contact in the table, responded, good, not self; nearest-bucket-first downward closure; fewer than 8 only when buckets at or beyond the target's are exhausted.",
+                note="set-level oracle: which 8 of more than 8 eligible entries of the last bucket are listed (Go map order) is free",
+                ref="DESIGN.md 5/C09"),
+    "C11": dict(level="model_checking", technique=E1 + "; plus exhaustive 2-schedule enumeration of the asynchronous peer-store updates of two announces",
+                text="BFS over announce histories (depth 3 quick / 4 thorough; sources: IPv4 in 4-byte form, the same IPv4 in 16-byte form, same IP other UDP port, IPv6, another IPv4; 2 infohashes; ports 1/80/65535 with and without implied_port; wrong-token announces) on the real Server with the bundled in-memory peer store; after every event all 16 get_peers probes (2 infohashes x want in {absent,n4,n6,both} x IPv4/IPv6 requester) are compared with a reference map (infohash, IP) -> endpoint: values only from announced endpoints of that infohash, every wanted-family endpoint present, only 6-byte entries to IPv4-wanting and 18-byte entries to IPv6-wanting requesters, token present in every reply. Plus both orders of the two asynchronous store updates of two announces from one IP (known finding K1).",
+                note="peer-store updates are spawned goroutines; in the BFS each event runs to quiescence, so their order is only enumerated in the dedicated schedule case",
+                ref="DESIGN.md 5/C11"),
     "C01": dict(level="model_checking", technique=E1 + "; crash attribution through a write-ahead journal of worker processes",
                 text="A structured hostile alphabet (about 450 datagrams: every field of every method removed/retyped/resized, envelope variants, unsolicited and malformed responses and errors, non-KRPC bytes up to 64 KiB, 10000-key dicts, 30000-deep nesting, 60000-digit integers) is delivered in 6 configurations x 4 start states, as singles and as all ordered pairs of the letters that had any effect at depth 1; the complete one-edit byte neighbourhood of a 42-datagram corpus; 10 own operations (ping .. getput.Put) each answered with about 480 hostile replies (all single and pairwise field alternatives plus malformed envelopes). After each history 40 virtual seconds pass, then a fresh ping must be answered (or registered when passive / out of budget) and Stats/NumNodes/Nodes/WriteStatus must return; a dead or wedged worker is reported with the journalled case.",
                 note="'all byte strings' is reached as alphabet + pairs + one-edit neighbourhood; a wedge on a leaked lock shows as a worker that makes no progress for 120 s of real time (normal case time is about 1 ms)",
